@@ -293,7 +293,12 @@ func (h *lockHist) lockAmount(tok common.Address) *big.Int {
 	if h.cfg.W.DustLock > 0 && h.r.Intn(100) < h.cfg.W.DustLock {
 		return big.NewInt(int64(1 + h.r.Intn(1000)))
 	}
-	return choices[h.r.Intn(len(choices))]
+	a := choices[h.r.Intn(len(choices))]
+	if a.Sign() < 0 {
+		// 10^18/weight - 1 for a weight above 10^18: amounts are unsigned on the wire
+		a = big.NewInt(1)
+	}
+	return a
 }
 
 func (h *lockHist) unlockAmount(vi int, tok common.Address, already *big.Int) *big.Int {
